@@ -21,6 +21,11 @@ META = {
         "design_ref": "DESIGN.md §4 C06",
         "note": "Same cuts as C01 (engine.Render, resource.Helper.Get, model cluster, store wrapper). helm template's cobra layer and OutputDir file writes are outside the claim.",
     },
+    "C07": {
+        "text": "Bounded symbolic model checking of the real checkOwnership/requireValue/setMetadataVisitor/merge* with symbolic presence and symbolic string VALUES of the managed-by label and the two release annotations and symbolic release name/namespace: accepted iff all three match exactly; after the visitor every object carries the three keys and keeps its other metadata. Plus install and upgrade end to end against a model cluster that already holds the to-be-created object in each ownership state, every relevant flag symbolic: a foreign object without take-ownership is refused before any cluster or storage write and is left untouched; otherwise the created object carries the ownership metadata.",
+        "design_ref": "DESIGN.md §4 C07",
+        "note": "meta accessor runs on a harness object type embedding metav1.ObjectMeta (unstructured accessor paths are outside the claim); resource.Helper.Get cut to the model cluster (native replay: fake REST transport with the real decoder). The clause 'helm never deletes what it does not own' is only covered through the model cluster's Update/Delete semantics in C01/C03 runs. Bounds: label/annotation values <=4 bytes over {H,e,l,m,a,b}; six ownership states.",
+    },
     "C08": {
         "text": "Bounded symbolic model checking of the real SortManifests/SplitManifests/manifestFile.sort/kind sorters: for every combination (within the bound) of document layout (separator variants, leading/trailing separators, partial files), head shape (kind known/unknown/empty, metadata nil, annotations nil/empty/other/hook), event lists (known, mixed case with spaces, unknown, mixed) and symbolic weight strings, each document lands exactly once in the manifest list or the hook list, is dropped iff it names an unknown event, partials never appear, content is unaltered, and both lists are ordered by the fixed kind order with unknown kinds last and stable within a kind.",
         "design_ref": "DESIGN.md §4 C08 (H08-part)",
@@ -54,4 +59,4 @@ META = {
 }
 
 _NYB = "harness not built yet in this session (design in DESIGN.md §4); not claimed until its check runs clean"
-NOT_APPLICABLE = {p: _NYB for p in ["C02", "C05", "C07", "C09", "C11", "C13", "C14", "C15", "C17", "C19"]}
+NOT_APPLICABLE = {p: _NYB for p in ["C02", "C05", "C09", "C11", "C13", "C14", "C15", "C17", "C19"]}
